@@ -523,3 +523,57 @@ Example select_unique_strict_nonvacuous :
   filter (prefix_suffix_sieve ex_ctx false) ex_three = [ex_cand_ctx "p-cm" ["p-"]] /\
   select_referral ex_ctx "cm" ex_three all_names_same = Ok (Some (ex_cand_ctx "p-cm" ["p-"])).
 Proof. repeat split; vm_compute; reflexivity. Qed.
+
+(* ================= progress through the whole transformer, generated table ================= *)
+
+From KV Require Import Res.ProgressProofs.
+
+Lemma gen_refs_follow_transform cs nonstr rules m m' C :
+  effective_rules gen_gvk_order_first gen_gvk_order_last gen_nameref_raw = Ok rules ->
+  mapM (view cs) m = Ok C -> no_empty_prev C = true ->
+  nameref_transform cs nonstr rules m = Ok m' ->
+  forall i r r' org row fs flags cands b a t s old,
+    nth_error m i = Some r -> nth_error m' i = Some r' -> org_id cs r = Ok org ->
+    In row rules -> In fs (nb_referrers row) -> gvk_is_selected (id_gvk org) (fs_gvk fs) = true ->
+    has_suffix "roleRef/name" (fs_path fs) = false ->
+    referencable cs m r = Ok flags -> mapM (view cs) (select_by flags m) = Ok cands ->
+    no_ns_key a -> reaches (path_splitter (fs_path fs)) a (r_node r) = true ->
+    get_addr a (r_node r) = Some (Scalar t s old) -> is_null (Scalar t s old) = false ->
+    filter (name_kind_match (make_ctx cs r (fs_path fs) (nb_gvk row)) old) cands = [b] ->
+    namespace_sieve (make_ctx cs r (fs_path fs) (nb_gvk row)) b = true ->
+    (forall c, In c C -> prev_name_matches old c = true -> c_name c = c_name b) ->
+    (forall c, In c C -> prev_name_matches (c_name b) c = true -> c_name c = c_name b) ->
+    exists t' s', get_addr a (r_node r') = Some (Scalar t' s' (c_name b)).
+Proof.
+  intros Hr HC Hne Hrun i r r' org row fs flags cands b a t s old.
+  intros; eapply (refs_follow_transform cs nonstr rules m m' C); eauto using no_empty_prev_spec.
+  intros b0 f Hb Hf. eapply gen_rule_ok; eauto.
+Qed.
+
+(* non-vacuity: ex_closed_state (ConfigMap cm -> p-cm, a Pod mounting "cm") meets every hypothesis *)
+Definition ex_pod_addr : list astep := [AKey "spec"; AKey "volumes"; AIdx 0; AKey "configMap"; AKey "name"].
+Definition ex_pod_fs : fieldspec := mkFs "" "v1" "Pod" "spec/volumes/configMap/name" false.
+Definition ex_cm_row : nbr := nth 4 gen_rules (mkNbr "" "" "" []).
+Definition ex_pod : resource := nth 1 ex_closed_state (fresh (sc "")).
+Definition ex_flags : list bool := match referencable no_cs ex_closed_state ex_pod with Ok f => f | _ => [] end.
+Definition ex_vis_cands : list cand := unres (mapM (view no_cs) (select_by ex_flags ex_closed_state)).
+Definition ex_b : cand := nth 0 ex_closed_cands ex_cand0.
+
+Example refs_follow_transform_nonvacuous :
+  nb_kind ex_cm_row = "ConfigMap" /\ In ex_cm_row gen_rules /\ In ex_pod_fs (nb_referrers ex_cm_row) /\
+  (exists org, org_id no_cs ex_pod = Ok org /\ gvk_is_selected (id_gvk org) (fs_gvk ex_pod_fs) = true) /\
+  has_suffix "roleRef/name" (fs_path ex_pod_fs) = false /\
+  referencable no_cs ex_closed_state ex_pod = Ok ex_flags /\
+  mapM (view no_cs) (select_by ex_flags ex_closed_state) = Ok ex_vis_cands /\
+  reaches (path_splitter (fs_path ex_pod_fs)) ex_pod_addr (r_node ex_pod) = true /\
+  get_addr ex_pod_addr (r_node ex_pod) = Some (Scalar TStr SPlain "cm") /\
+  filter (name_kind_match (make_ctx no_cs ex_pod (fs_path ex_pod_fs) (nb_gvk ex_cm_row)) "cm") ex_vis_cands = [ex_b] /\
+  namespace_sieve (make_ctx no_cs ex_pod (fs_path ex_pod_fs) (nb_gvk ex_cm_row)) ex_b = true /\
+  c_name ex_b = "p-cm" /\
+  forallb (fun c => negb (prev_name_matches "cm" c) || String.eqb (c_name c) "p-cm") ex_closed_cands = true /\
+  forallb (fun c => negb (prev_name_matches "p-cm" c) || String.eqb (c_name c) "p-cm") ex_closed_cands = true.
+Proof.
+  split; [vm_compute; reflexivity|]. split; [vm_compute; tauto|]. split; [vm_compute; tauto|].
+  split; [eexists; split; vm_compute; reflexivity|].
+  repeat split; vm_compute; reflexivity.
+Qed.
